@@ -19,6 +19,7 @@
   Scope as there: no receive extension, OnIntermediate unset.
 -/
 import WsVerif.Props.C04
+import WsVerif.Props.C05
 import WsVerif.Props.C07
 import WsVerif.Proofs.ReaderText
 namespace Ws.C07
@@ -128,6 +129,67 @@ theorem text_message (r0 : Rd) (s : Src) (cx : Ctx) (f0 : WFrame) (fs : List WFr
         rw [h1] at a1; exact a1 hacc
     · intro _
       exact ⟨Or.inr rfl, fun _ => rfl⟩
+
+/-- **C05 for text messages** (CheckUTF8 on): the valid frames `f0 :: fs` of a text message, then a
+    frame the reader must refuse. Any sequence of Reads either stays inside the known frames — handing
+    out a prefix of their text, ending (if at all) with io.EOF for a complete message or with
+    ErrInvalidUTF8 — or delivers all of the text and returns the refusal `err` at the Read that reaches
+    the offending header, with nothing behind that header read. No byte of or after the offending frame
+    is ever delivered, and no other error is possible. -/
+theorem reject_at_first_bad_text (r0 : Rd) (s : Src) (cx : Ctx) (f0 : WFrame) (fs : List WFrame) (hbad : Header)
+    (junk : Bytes) (err : RErr) (ks : List Nat) (hpos : ∀ k ∈ ks, 0 < k)
+    (hidle : r0.hasFrame = false) (hnf : r0.fragmented = false) (hst : r0.state < 256)
+    (hext : r0.ext = false) (hu8 : r0.checkUTF8 = true) (hfresh : r0.utf8.state = utf8Accept)
+    (htext : f0.h.op = opText)
+    (hok0 : f0.OK) (hdata0 : opIsControl f0.h.op = false) (hfin0 : f0.h.fin = false)
+    (hacc0 : AcceptsAt r0.skipCheck r0.state r0.maxFrame f0.h)
+    (htail : Tail true r0.skipCheck (stSet r0.state stFragmented) r0.maxFrame fs)
+    (hbw : hbad.WF) (hrej : C05.RefusedWith r0.skipCheck (stSet r0.state stFragmented) r0.maxFrame hbad err)
+    (hb : s.bytes = encodeFs (f0 :: fs) ++ (rfcEncode hbad ++ junk)) (hwf : Bytes.WF s.bytes) (htame : Src.Tame s) :
+    ∃ r1 s1, r0.nextFrame s cx none = (some f0.h, none, r1, s1, cx) ∧
+      ((∃ out e r' s' cx', reads r1 s1 cx ks = some (out, e, r', s', cx')
+          ∧ (∃ more, dataPlain (f0 :: fs) = out ++ more) ∧ (e = none ∨ e = some .eof ∨ e = some .utf8))
+       ∨ (∃ r' s', reads r1 s1 cx ks = some (dataPlain (f0 :: fs), some err, r', s', cx) ∧ s'.bytes = junk)) := by
+  obtain ⟨q1, s1, hnext, hq1, hcases⟩ :=
+    C05.reject_at_first_bad (strip r0) s cx f0 fs hbad junk err ks hpos hidle hnf hst hext rfl hok0 hdata0 hfin0
+      hacc0 htail hbw hrej hb hwf htame
+  rw [nextFrame_strip] at hnext
+  obtain ⟨f1, f2, f3⟩ := nextFrame_fields r0 s cx
+  rcases hN : r0.nextFrame s cx none with ⟨hd, e1, r1, s1', cx1⟩
+  rw [hN] at hnext f1 f2 f3
+  simp only [Prod.mk.injEq] at hnext f1 f2 f3
+  obtain ⟨rfl, rfl, rfl, rfl, rfl⟩ := hnext
+  have hh1 : r1.hasFrame = true := hq1
+  have hallOK : ∀ f ∈ f0 :: fs, f.OK := by
+    intro f hf
+    simp only [List.mem_cons] at hf
+    rcases hf with rfl | hf
+    · exact hok0
+    · exact htail.allOK f hf
+  have hwfd : Bytes.WF (dataPlain (f0 :: fs)) := dataPlain_wf _ hallOK
+  have htm : TM .acc r1 := by
+    rcases f3 with ⟨g1, _, _⟩ | ⟨_, _, h, g4, g5, g6⟩
+    · rw [hidle] at g1; rw [g1] at hh1; cases hh1
+    · simp only [Option.some.injEq] at g6
+      subst g6
+      refine ⟨by rw [f1]; exact hu8, by rw [f2, hfresh]; rfl, by decide, fun _ => ?_, fun _ => ?_, Or.inl hh1⟩
+      · rw [g4, hu8, htext]; simp
+      · rw [g5, hnf]; simpa using htext
+  refine ⟨r1, s1', rfl, ?_⟩
+  rcases hcases with ⟨out, e, q', s', hrd, ⟨more, hmore⟩, hee⟩ | ⟨q', s', hrd, hjunk⟩
+  · have hwfo : Bytes.WF out := by rw [hmore] at hwfd; exact wf_left hwfd
+    left
+    rcases reads_sim ks .acc r1 s1' cx1 htm out e q' s' cx1 hrd hwfo with
+      ⟨_, _, r', a3, _, _⟩ | ⟨_, out', r', s'', cx'', a3, more', a4⟩
+    · refine ⟨out, e, r', s', cx1, a3, ⟨more, hmore⟩, ?_⟩
+      rcases hee with he | he
+      · exact Or.inl he
+      · exact Or.inr (Or.inl he)
+    · exact ⟨out', some .utf8, r', s'', cx'', a3, ⟨more' ++ more, by rw [hmore, a4, List.append_assoc]⟩, Or.inr (Or.inr rfl)⟩
+  · rcases reads_sim ks .acc r1 s1' cx1 htm _ (some err) q' s' cx1 hrd hwfd with
+      ⟨_, _, r', a3, _, _⟩ | ⟨_, out', r', s'', cx'', a3, more', a4⟩
+    · right; exact ⟨r', s', a3, hjunk⟩
+    · left; exact ⟨out', some .utf8, r', s'', cx'', a3, ⟨more', a4⟩, Or.inr (Or.inr rfl)⟩
 
 /-! Non-vacuity: the C04 example stream ("hel" | ping | "" | "lo", masked, server side, cut by the
     transport inside header, mask and payload) read with CheckUTF8 on; and the same message with the
